@@ -33,7 +33,7 @@ pub fn run(ctx: &Ctx) -> (Report, Meta) {
     .floor("first_steps_accepted", 200)
     .floor("budget_pairs_checked", 500)
     .floor("budgets_that_ran_out", 200);
-    let g = GenOpts { bidirectional_problems: true, max_span: 30.0, ..Default::default() };
+    let g = GenOpts { stiff_for_implicit: true, bidirectional_problems: true, max_span: 30.0, ..Default::default() };
 
     // ---------------- (a) max_step ----------------
     let na = ctx.size(40_000, 600_000);
